@@ -112,6 +112,27 @@ contract(F + '::OptionsDictionary.temporary', ['C27'],
          canaries=[('restore skipped for the last option', ('for option in reversed(entered):', 'for option in reversed(entered[:-1]):'), 'post')])
 
 
+# the same through a DEPRECATED name: 'old' is declared with deprecation=(msg, 'a'); entering and leaving the context
+# both resolve the alias, so it is option 'a' that is changed and restored and the entry of 'old' is never written
+def temp_opts_alias():
+    d = {'a': meta_spec('a0', types=None, check_valid=None, upper=None), 'b': meta_spec('b0', types=None, check_valid=None, upper=None),
+         'old': meta_spec('unused', types=None, check_valid=None, upper=None, lower=None, values=None, has_been_set=False, deprecation=ListT('msg', 'a', False))}
+    return Obj('OptionsDictionary', _dict=DictT(d), _parent_name=None, _read_only=False, _context_cache=DictT({}))
+
+
+contract(F + '::OptionsDictionary.temporary', ['C27'],
+         requires=[wf("self._dict['a']"), wf("self._dict['b']")],
+         params=dict(self=temp_opts_alias(), kwargs=OneOf(DictT({'old': Real()}), DictT({'old': Real(), 'b': Real()}), DictT({'b': Real(), 'old': Real()}))),
+         may_raise=EXC + ['BodyError'],
+         ensures=RESTORED + ["same_object(self._dict['old']['val'], old(self._dict['old']['val']))"],
+         exc_ensures=RESTORED + ["same_object(self._dict['old']['val'], old(self._dict['old']['val']))"],
+         modifies=["self._dict['a']['has_been_set']", "self._dict['b']['has_been_set']"],
+         inline={'_raise', '_handle_deprecation', '_assert_valid', '__getitem__', '__setitem__'},
+         assumed={'yield': Assumed(may_raise=['BodyError'], note='the with-body: arbitrary code that may raise anything')},
+         name=F + '::OptionsDictionary.temporary[deprecated alias]', no_sampling=True,
+         canaries=[('restore bypasses the alias resolution', ('self[option] = self._context_cache[option].pop()', "self._dict[option]['val'] = self._context_cache[option].pop()"), 'post')])
+
+
 # ---------------------------------------------------------------------------------------------
 # native side: a real OptionsDictionary built from the (model or sampled) declaration
 class BodyError(Exception):
@@ -252,5 +273,7 @@ for _c in REGISTRY[F + '::OptionsDictionary.__setitem__']:
     _c.native = native_set('set')
     _c.sampler = set_sampler(True)
 for _c in REGISTRY[F + '::OptionsDictionary.temporary']:
+    if 'alias' in _c.name:
+        continue            # (proof only: no native builder for the deprecated-alias configuration)
     _c.native = native_temp
     _c.sampler = temp_sampler
